@@ -154,6 +154,16 @@ def oracle(res, tier):
             if "perp" not in o.get("early", {}):
                 continue
         tol = 250.0 * max(sp["options"].get("follow_perpendicular_rtol", 2e-8), sp["options"].get("follow_perpendicular_atol", 1e-8))
+        # the written corner arrays: the upper corners of the last row of a region are the lower corners of the region above, i.e. points of
+        # *its* radial lines (getRZBoundary); every corner of that row must be one, or the row zig-zags between two integral curves
+        if written and "Rxy_upper_right_corners" in o["vars"]:
+            from props.c08 import y_adjacent_corner_mismatch
+
+            wl_, wr_, wh_ = y_adjacent_corner_mismatch(o["vars"])
+            res.extra.setdefault("seam_corner_mismatch_m", {})[t] = {"left": wl_, "right": wr_}
+            if max(wl_, wr_) > tol:
+                res.violation("seam-corner:%s" % t, "%s: the upper %s corner of cell (x=%d, y=%d) is %.2e m from the lower %s corner of its poloidal successor (y=%d): the row "
+                              "is not on one set of radial lines (tolerance %.1e)" % (t, wh_[3], wh_[0], wh_[1], max(wl_, wr_), wh_[3], wh_[2], tol), {"spec": sp})
         worst = 0.0
         for rid, r in o["early"]["perp"].items():
             d = np.array(r["dist"], dtype=float)
